@@ -37,15 +37,17 @@ static std::map<int,long> g_consumed; // per server fd
 static std::atomic<long> g_read_points(0), g_write_points(0), g_partial_reads(0), g_partial_writes(0), g_eagain_reads(0), g_eagain_writes(0);
 static std::vector<long> g_forced_cuts; // absolute stream offsets at which a read on the focus connection must stop (a deterministic segmentation, no choice points)
 static std::atomic<long> g_forced_cut_reads(0);
+static std::vector<long> g_forced_wcuts; // the same for the response stream: offsets at which a server-side write on the focus connection accepts no more
+static std::map<int,long> g_written; static std::atomic<long> g_forced_cut_writes(0);
 static std::atomic<int> g_focus_fd(-1); // only the connection under test is scripted (probe connections run free)
 static std::atomic<bool> g_next_accept_is_focus(false);
 static std::vector<long> alt_sizes(long cap){ std::vector<long> a; if(cap<=1) return a; if(cap<=192){ for(long k=1;k<cap;k++) a.push_back(k); return a; } long m[]={1,2,3,7,8,15,16,17,cap/2,255,256,4095,4096,8191,8192,16383,16384,cap-2,cap-1}; std::set<long> s; for(size_t i=0;i<sizeof(m)/sizeof(*m);i++) if(m[i]>=1&&m[i]<cap) s.insert(m[i]); a.assign(s.begin(),s.end()); return a; }
 static bool is_nonblocking(int fd){ int fl=fcntl(fd,F_GETFL); return fl>=0&&(fl&O_NONBLOCK); }
 } // namespace wire
 
-extern "C" int accept(int fd,struct sockaddr *a,socklen_t *l){ int r=syscall(SYS_accept,fd,a,l); if(r>=0){ std::lock_guard<std::mutex> g(wire::g_mx); wire::g_server_fds.insert(r); wire::g_consumed[r]=0; if(wire::g_next_accept_is_focus.exchange(false)) wire::g_focus_fd=r; } return r; }
-extern "C" int accept4(int fd,struct sockaddr *a,socklen_t *l,int flags){ int r=syscall(SYS_accept4,fd,a,l,flags); if(r>=0){ std::lock_guard<std::mutex> g(wire::g_mx); wire::g_server_fds.insert(r); wire::g_consumed[r]=0; if(wire::g_next_accept_is_focus.exchange(false)) wire::g_focus_fd=r; } return r; }
-extern "C" int close(int fd){ { std::lock_guard<std::mutex> g(wire::g_mx); if(wire::g_server_fds.erase(fd)){ wire::g_consumed.erase(fd); if(wire::g_focus_fd==fd) wire::g_focus_fd=-1; } } return syscall(SYS_close,fd); }
+extern "C" int accept(int fd,struct sockaddr *a,socklen_t *l){ int r=syscall(SYS_accept,fd,a,l); if(r>=0){ std::lock_guard<std::mutex> g(wire::g_mx); wire::g_server_fds.insert(r); wire::g_consumed[r]=0; wire::g_written[r]=0; if(wire::g_next_accept_is_focus.exchange(false)) wire::g_focus_fd=r; } return r; }
+extern "C" int accept4(int fd,struct sockaddr *a,socklen_t *l,int flags){ int r=syscall(SYS_accept4,fd,a,l,flags); if(r>=0){ std::lock_guard<std::mutex> g(wire::g_mx); wire::g_server_fds.insert(r); wire::g_consumed[r]=0; wire::g_written[r]=0; if(wire::g_next_accept_is_focus.exchange(false)) wire::g_focus_fd=r; } return r; }
+extern "C" int close(int fd){ { std::lock_guard<std::mutex> g(wire::g_mx); if(wire::g_server_fds.erase(fd)){ wire::g_consumed.erase(fd); wire::g_written.erase(fd); if(wire::g_focus_fd==fd) wire::g_focus_fd=-1; } } return syscall(SYS_close,fd); }
 extern "C" ssize_t readv(int fd,const struct iovec *iov,int cnt){
 	bool scripted=false,forced=false; if(fd==wire::g_focus_fd){ std::lock_guard<std::mutex> g(wire::g_mx); forced=!wire::g_forced_cuts.empty(); if(wire::g_explore_reads||forced) scripted=wire::g_server_fds.count(fd)>0; }
 	if(!scripted){ ssize_t r=syscall(SYS_readv,fd,iov,cnt); if(r>0){ std::lock_guard<std::mutex> g(wire::g_mx); if(wire::g_consumed.count(fd)) wire::g_consumed[fd]+=r; } return r; }
@@ -60,7 +62,8 @@ extern "C" ssize_t readv(int fd,const struct iovec *iov,int cnt){
 	long k=alts[choice-1]; wire::g_partial_reads++; struct iovec tmp[16]; int n=0; long left=k; for(int i=0;i<cnt&&i<16&&left>0;i++){ tmp[n]=iov[i]; if((long)tmp[n].iov_len>left) tmp[n].iov_len=left; left-=tmp[n].iov_len; n++; }
 	ssize_t r=syscall(SYS_readv,fd,tmp,n); if(r>0){ std::lock_guard<std::mutex> g(wire::g_mx); wire::g_consumed[fd]+=r; } return r; }
 extern "C" ssize_t writev(int fd,const struct iovec *iov,int cnt){
-	bool scripted=false; if(wire::g_explore_writes&&fd==wire::g_focus_fd){ std::lock_guard<std::mutex> g(wire::g_mx); scripted=wire::g_server_fds.count(fd)>0; }
+	bool scripted=false,forced=false; if(fd==wire::g_focus_fd){ std::lock_guard<std::mutex> g(wire::g_mx); forced=!wire::g_forced_wcuts.empty()&&wire::g_server_fds.count(fd)>0; if(wire::g_explore_writes) scripted=wire::g_server_fds.count(fd)>0; }
+	if(forced){ long total=0; for(int i=0;i<cnt;i++) total+=iov[i].iov_len; long k=total; { std::lock_guard<std::mutex> g(wire::g_mx); long pos=wire::g_written[fd]; for(size_t i=0;i<wire::g_forced_wcuts.size();i++){ long c=wire::g_forced_wcuts[i]; if(c>pos&&c<pos+k) k=c-pos; } } if(k<total) wire::g_forced_cut_writes++; std::vector<struct iovec> tmp; long left=k; for(int i=0;i<cnt&&left>0;i++){ struct iovec v=iov[i]; if((long)v.iov_len>left) v.iov_len=left; left-=v.iov_len; tmp.push_back(v); } ssize_t r= tmp.empty()? syscall(SYS_writev,fd,iov,cnt) : syscall(SYS_writev,fd,&tmp[0],tmp.size()); if(r>0){ std::lock_guard<std::mutex> g(wire::g_mx); wire::g_written[fd]+=r; } return r; }
 	if(!scripted) return syscall(SYS_writev,fd,iov,cnt);
 	long total=0; for(int i=0;i<cnt;i++) total+=iov[i].iov_len; if(total<=1) return syscall(SYS_writev,fd,iov,cnt);
 	std::set<long> s; s.insert(1); s.insert(total/2); s.insert(total-1); if(total>3){ s.insert(2); } s.erase(0); s.erase(total); std::vector<long> alts(s.begin(),s.end()); bool nb=wire::is_nonblocking(fd); int choice; { std::lock_guard<std::mutex> g(wire::g_mx); wire::g_write_points++; choice= wire::g_envx? wire::g_envx->choose(1+alts.size()+(nb?1:0),"writev"):0; }
